@@ -37,7 +37,8 @@ def repo(*p):
 
 
 def child_envelope(name, variant, d):
-    desc = gen.child_env(seq=sum(map(ord, name)) % 200 + 1)
+    # the child's own wrapper algorithm differs from the sha-256 the templates ask for (rich: sha-512, signed: sha-384)
+    desc = gen.child_env(seq=sum(map(ord, name)) % 200 + 1, alg={"minimal": "cose-alg-sha-256", "rich": "cose-alg-sha-512", "signed": "cose-alg-sha-384"}[variant])
     if variant in ("rich", "signed"):
         desc["SUIT_Envelope_Tagged"]["suit-manifest"]["suit-install"] = gen.digest("cose-alg-sha-256")
         desc["SUIT_Envelope_Tagged"]["suit-install"] = [{"suit-directive-write": []}]
